@@ -216,6 +216,13 @@ def replay_cmd(path):
     with open(path) as f:
         rp = json.load(f)
     print("replaying", rp["contract"], rp["obligation"])
+    if rp["contract"] not in engine.CONTRACTS:
+        # a case found by a bounded harness (bounded/<pid>.py): the file carries the concrete input and how to build it; the harness
+        # regenerates the same case deterministically from (tier, seed), there is no single-case entry point
+        print("bounded-harness case (not a d3vc contract); recorded input and verdict:")
+        print(json.dumps({k: rp.get(k) for k in ("detail", "input", "note")}, indent=1, default=str)[:6000])
+        print("re-execute with: ./check %s --tier <tier>   (VERIF_SEED as in the run that wrote this file)" % rp.get("property", "<property>"))
+        return 2
     r = run_concrete_subprocess(rp["contract"], rp.get("values", {}), rp.get("seed", 0))
     print(json.dumps(r, indent=1, default=str)[:4000])
     if not r.get("ok"):
